@@ -108,27 +108,10 @@ def judgeWrap : Judge := liftJudge fun input obs => do
     let y : Int ← a[1]!.getInt?
     let z : Nat ← a[2]!.getNat?
     pure (x, y, z)
-  -- model: every call = acquire; wrap trace; the recorded result feeds `record`
-  let rec go (cb : CB) (r : Ref) (cs : List Int) (acc : List (Int × Int × Nat)) (accR : List (Int × Int × Nat))
-      (fuel : Nat) : List (Int × Int × Nat) × List (Int × Int × Nat) :=
-    match fuel, cs with
-    | 0, _ => (acc.reverse, accR.reverse)
-    | _, [] => (acc.reverse, accR.reverse)
-    | fuel + 1, c :: rest =>
-      let o : Outcome := if c == 1 then .err else if c == 2 then .panic else .ok
-      let a := acquire p cb 0
-      let (evs, ret) := wrap a.2.permitted o
-      let cb' := evs.foldl (fun s e => match e with
-        | Ev.record hasErr => record p s a.2.id hasErr 0 0
-        | _ => s) a.1
-      let ra := r.acquire p 0
-      let r' := if ra.2 then ra.1.record p ra.1.epoch (classify p (o != .ok) 0) 0 else ra.1
-      let cls : WrapRet → Int := fun x => match x with
-        | .nil => 0 | .handlerErr => 1 | .shortCircuited => 2 | .panics => 3
-      let specRet : Int := if !ra.2 then 2 else (match o with | .ok => 0 | .err => 1 | .panic => 3)
-      go cb' r' rest ((cls ret, (if evs.contains Ev.handler then 1 else 0), cb'.st.toNat) :: acc)
-        ((specRet, (if ra.2 then 1 else 0), r'.st.toNat) :: accR) fuel
-  let (want, wantR) := go (new p 0) (Ref.new p 0) calls [] [] calls.length
+  -- model: every call = acquire; wrap trace; the recorded result feeds `record` (`Spec.wrapRunModel`); spec: the
+  -- reference automaton (`Spec.wrapRunRef`); `wrap_spec_accepts_model` proves the two equal for every call list
+  let want := wrapRunModel p (new p 0) calls
+  let wantR := wrapRunRef p (Ref.new p 0) calls
   let agree := decide (got = want)
   let spec := decide (got = wantR)
   let sc := want.any (fun x => x.1 == 2)
@@ -153,29 +136,12 @@ def judgeProxy : Judge := liftJudge fun input obs => do
     let y : Nat ← a[1]!.getNat?
     let z : Nat ← a[2]!.getNat?
     pure (x, y, z)
-  let rec go (cb : CB) (cs : List Int) (acc : List (String × Nat × Nat)) (fuel : Nat) : List (String × Nat × Nat) :=
-    match fuel, cs with
-    | 0, _ => acc.reverse
-    | _, [] => acc.reverse
-    | fuel + 1, c :: rest =>
-      -- the wrapped handler (`doHandle`) returns an error for a connection failure and for a failure code
-      let o : Outcome := if c == 1 || c == 2 then .err else .ok
-      let a := acquire p cb 0
-      let (evs, ret) := wrap a.2.permitted o
-      let cb' := evs.foldl (fun s e => match e with
-        | Ev.record hasErr => record p s a.2.id hasErr 0 0
-        | _ => s) a.1
-      let perr : PoolErr := match ret with
-        | .nil => .none | .shortCircuited => .shortCircuited
-        | _ => if c == 2 then .poolError 500 "failureCode" else .poolError 503 "serverError"
-      -- for a failure code the backend's response is already the output response
-      let (res, code) := poolOutcome (c == 2) perr
-      go cb' rest ((res, code.getD (if c == 2 then 500 else 200), if evs.contains Ev.handler then 1 else 0) :: acc) fuel
-  let want := go (new p 0) calls [] calls.length
+  -- model: `Spec.proxyRun` (acquire, wrap trace, records, `poolOutcome`); `proxy_spec_accepts_model`
+  let want := proxyRun p (new p 0) calls
   let agree := decide (got = want)
   -- property: a short-circuited call is 503 / shortCircuited and contacts no server; and a call is
   -- short-circuited exactly when the model's breaker refuses it
-  let spec := agree && got.all (fun (r, code, n) => r != "shortCircuited" || (code == 503 && n == 0))
+  let spec := agree && proxyShortOK got
   let sc := want.any (fun x => x.1 == "shortCircuited")
   pure { agree := agree, spec := spec,
          expected := Json.arr (want.map (fun (a, b, c) => Json.arr #[Json.str a, Json.num b, Json.num c])).toArray,
